@@ -479,4 +479,186 @@ theorem forward_nonneg {m : POMDP} (hm : ValidModel m) :
     exact forward_nonneg hm h _ (unnorm_nonneg hm hv hao.1 hao.2)
       (fun p hp => hh p (List.mem_cons_of_mem _ hp))
 
+/-! ## Bayes semantics made explicit: the update is a conditional probability of the joint distribution -/
+
+/-- the joint over (s, s1, o) is a probability distribution -/
+theorem joint_sum_one {m : POMDP} (hm : ValidModel m) {b : Vec} (hb : IsBelief m.S b) {a : Nat} (ha : a < m.A) :
+    sumTo m.S (fun s => sumTo m.S (fun s1 => sumTo m.O (fun o => joint m b a s s1 o))) = 1 := by
+  have h1 : ∀ s, s < m.S → sumTo m.S (fun s1 => sumTo m.O (fun o => joint m b a s s1 o)) = b s := by
+    intro s hs
+    have h2 : ∀ s1, s1 < m.S → sumTo m.O (fun o => joint m b a s s1 o) = b s * m.T s a s1 := by
+      intro s1 hs1
+      unfold joint
+      rw [sumTo_mul_left, hm.O_sum s1 a hs1 ha, mul_one]
+    rw [sumTo_congr h2, sumTo_mul_left, hm.T_sum s a hs ha, mul_one]
+  rw [sumTo_congr h1, hb.sum_one]
+
+theorem joint_nonneg {m : POMDP} (hm : ValidModel m) {b : Vec} (hb : ∀ s, s < m.S → 0 ≤ b s) {a : Nat} (ha : a < m.A)
+    {s s1 o : Nat} (hs : s < m.S) (hs1 : s1 < m.S) (ho : o < m.O) : 0 ≤ joint m b a s s1 o :=
+  mul_nonneg (mul_nonneg (hb s hs) (hm.T_nonneg s a s1 hs ha hs1)) (hm.O_nonneg s1 a o hs1 ha ho)
+
+/-- the Bayes weight is the marginal `P(s1, o)` of the joint -/
+theorem weight_eq_marginal (m : POMDP) (b : Vec) (a o s1 : Nat) :
+    weight m b a o s1 = sumTo m.S (fun s => joint m b a s s1 o) := by
+  unfold weight joint
+  rw [← sumTo_mul_left]
+  apply sumTo_congr
+  intro s _; ring
+
+/-- `P(o | b,a)` is the marginal `P(o)` of the joint -/
+theorem probO_eq_marginal (m : POMDP) (b : Vec) (a o : Nat) :
+    probO m b a o = sumTo m.S (fun s => sumTo m.S (fun s1 => joint m b a s s1 o)) := by
+  unfold probO joint
+  apply sumTo_congr
+  intro s _
+  rw [← sumTo_mul_left]
+  apply sumTo_congr
+  intro s1 _; ring
+
+/-- `updateBelief` returns the conditional probability `P(s1 | o) = P(s1, o) / P(o)` of the joint -/
+theorem update_eq_conditional (m : POMDP) (b : Vec) (a o s1 : Nat) :
+    updateG m b a o s1 = sumTo m.S (fun s => joint m b a s s1 o)
+        / sumTo m.S (fun s => sumTo m.S (fun s1 => joint m b a s s1 o)) := by
+  rw [← weight_eq_marginal, ← probO_eq_marginal, ← unnorm_sum_eq_prob_o]
+  rfl
+
+/-! ## forward–backward: the mass of the forward vector is the true likelihood of the observation sequence -/
+
+theorem forward_backward (m : POMDP) :
+    ∀ (h : List (Nat × Nat)) (b : Vec),
+      sumTo m.S (forward m b h) = sumTo m.S (fun s => b s * backward m h s)
+  | [], b => by simp [forward, backward]
+  | (a, o) :: h, b => by
+    simp only [forward, backward]
+    rw [forward_backward m h]
+    unfold unnormG
+    have h1 : (fun s1 => m.Ob s1 a o * sumTo m.S (fun s => m.T s a s1 * b s) * backward m h s1)
+        = (fun s1 => sumTo m.S (fun s => b s * (m.T s a s1 * m.Ob s1 a o * backward m h s1))) := by
+      funext s1
+      rw [mul_comm (m.Ob s1 a o), mul_assoc, ← sumTo_mul_right]
+      apply sumTo_congr
+      intro s _; ring
+    rw [h1, sumTo_comm]
+    apply sumTo_congr
+    intro s _
+    rw [sumTo_mul_left]
+
+/-- the product of the library's own per-step normalisers is the likelihood of the whole observation
+    sequence computed from the tables alone -/
+theorem seqProb_eq_likelihood (m : POMDP) {b : Vec} (hb : sumTo m.S b = 1) (h : List (Nat × Nat))
+    (hp : PosHist m b h) : seqProb m b h = sumTo m.S (fun s => b s * backward m h s) := by
+  have e : normalize m.S b = b := by
+    funext s; unfold normalize; rw [hb, div_one]
+  have h1 := forward_sum_eq_seqProb m h b (by rw [hb]; exact one_ne_zero) hp
+  rw [e, hb, one_mul] at h1
+  rw [← h1, forward_backward]
+
+/-! ## soundness of the decidable checkers the driver evaluates on the library's exact outputs -/
+
+theorem allLt_iff {n : Nat} {p : Nat → Bool} : allLt n p = true ↔ ∀ i, i < n → p i = true := by
+  simp [allLt, List.all_eq_true, List.mem_range]
+
+/-- a reported vector that passes `checkUnnorm` satisfies every clause of C05, whatever code produced it -/
+theorem checkUnnorm_sound {m : POMDP} (hm : ValidModel m) {b : Vec} (hb : ∀ s, s < m.S → 0 ≤ b s)
+    {a o : Nat} (ha : a < m.A) (ho : o < m.O) (impl : Vec) (h : checkUnnorm m b a o impl = true) :
+    (∀ s1, s1 < m.S → 0 ≤ impl s1) ∧
+    sumTo m.S impl = probO m b a o ∧
+    (0 < probO m b a o →
+      (∀ s1, s1 < m.S → 0 ≤ normalize m.S impl s1) ∧ sumTo m.S (normalize m.S impl) = 1 ∧
+      (∀ s1, s1 < m.S → normalize m.S impl s1 = weight m b a o s1 / probO m b a o)) := by
+  have he : ∀ s1, s1 < m.S → impl s1 = unnormG m b a o s1 := by
+    intro s1 hs1
+    have := (allLt_iff.mp h) s1 hs1
+    rw [unnormG_eq_weight]; simpa using this
+  have hs : sumTo m.S impl = probO m b a o := by
+    rw [sumTo_congr he, unnorm_sum_eq_prob_o]
+  refine ⟨fun s1 hs1 => by rw [he s1 hs1]; exact unnorm_nonneg hm hb ha ho s1 hs1, hs, ?_⟩
+  intro hpos
+  have hne : sumTo m.S impl ≠ 0 := by rw [hs]; exact ne_of_gt hpos
+  refine ⟨?_, normalize_sum hne, ?_⟩
+  · intro s1 hs1
+    unfold normalize
+    rw [hs, he s1 hs1]
+    exact div_nonneg (unnorm_nonneg hm hb ha ho s1 hs1) (le_of_lt hpos)
+  · intro s1 hs1
+    unfold normalize
+    rw [hs, he s1 hs1]; rfl
+
+/-- reported prediction + reported per-observation updates that pass their checkers add up, entry by entry -/
+theorem checkPredict_sound {m : POMDP} (hm : ValidModel m) {b : Vec} {a : Nat} (ha : a < m.A)
+    (implP : Vec) (implU : Nat → Vec) (hP : checkPredict m b a implP = true)
+    (hU : ∀ o, o < m.O → checkUnnorm m b a o (implU o) = true) :
+    ∀ s1, s1 < m.S → sumTo m.O (fun o => implU o s1) = implP s1 := by
+  intro s1 hs1
+  have e1 : implP s1 = predictG m b a s1 := by
+    have := (allLt_iff.mp hP) s1 hs1
+    simpa using this
+  have e2 : ∀ o, o < m.O → implU o s1 = unnormG m b a o s1 := by
+    intro o ho
+    have := (allLt_iff.mp (hU o ho)) s1 hs1
+    rw [unnormG_eq_weight]; simpa using this
+  rw [sumTo_congr e2, e1, sum_over_o_eq_predict hm b ha hs1]
+
+/-- a reported matrix that passes `checkSosa` reproduces the unnormalised update of EVERY belief -/
+theorem checkSosa_sound (m : POMDP) (a o : Nat) (impl : Mat) (h : checkSosa m a o impl = true) (b : Vec) :
+    ∀ s1, s1 < m.S → vecMat m.S b impl s1 = unnormG m b a o s1 := by
+  intro s1 hs1
+  rw [← sosa_row]
+  unfold vecMat
+  apply sumTo_congr
+  intro s hs
+  have := (allLt_iff.mp ((allLt_iff.mp h) s hs)) s1 hs1
+  have e : impl s s1 = sosaG m a o s s1 := by unfold sosaG; simpa using this
+  rw [e]
+
+/-! ## the hypotheses are satisfiable: a concrete asymmetric model (the harness's fixed case 1) -/
+
+/-- asymmetric 3-state, 1-action, 2-observation POMDP -/
+def exM : POMDP :=
+  { S := 3, A := 1, O := 2,
+    T := fun s _ s1 => ofList2 3 [1/2, 1/2, 0,   0, 1/4, 3/4,   1/8, 0, 7/8] s s1,
+    Ob := fun s1 _ o => ofList2 2 [3/4, 1/4,   0, 1,   1/2, 1/2] s1 o,
+    R := fun s _ s1 => ofList2 3 [1, -2, 0,   0, 1/2, 4,   -1, 0, 1/4] s s1 }
+
+def exB : Vec := ofList [1/8, 5/8, 1/4]
+
+theorem exM_valid : ValidModel exM := by
+  constructor
+  · intro s a s1 hs ha hs1
+    simp only [exM] at hs hs1
+    interval_cases s <;> interval_cases s1 <;> norm_num [exM, ofList2]
+  · intro s a hs ha
+    simp only [exM] at hs
+    interval_cases s <;> norm_num [exM, ofList2, sumTo]
+  · intro s1 a o hs1 ha ho
+    simp only [exM] at hs1 ho
+    interval_cases s1 <;> interval_cases o <;> norm_num [exM, ofList2]
+  · intro s1 a hs1 ha
+    simp only [exM] at hs1
+    interval_cases s1 <;> norm_num [exM, ofList2, sumTo]
+
+theorem exB_belief : IsBelief 3 exB := by
+  constructor
+  · intro s hs; interval_cases s <;> norm_num [exB, ofList]
+  · norm_num [exB, ofList, sumTo]
+
+/-- (test on literals) `P(o=0 | b, a=0) = 53/128 > 0` -/
+theorem ex_probO : probO exM exB 0 0 = 53/128 := by
+  norm_num [probO, exM, exB, ofList, ofList2, sumTo]
+
+/-- the hypotheses of `posterior_is_bayes` hold for `exM`, `exB`, a = 0, o = 0 -/
+example : (∀ s1, s1 < 3 → 0 ≤ updateG exM exB 0 0 s1) ∧ sumTo 3 (updateG exM exB 0 0) = 1 :=
+  let h := posterior_is_bayes exM_valid exB_belief.nonneg (a := 0) (o := 0) (by decide) (by decide)
+    (by rw [ex_probO]; norm_num)
+  ⟨h.1, h.2.1⟩
+
+/-- (test on literals) the posterior of state 0 is 9/53 — not what a transposed T gives (21/53) -/
+example : updateG exM exB 0 0 0 = 9/53 := by
+  norm_num [updateG, normalize, unnormG, exM, exB, ofList, ofList2, sumTo]
+
+/-- the hypotheses of `filter_eq_forward` hold for a two-step history on `exM` -/
+example : PosHist exM exB [(0, 0), (0, 1)] := by
+  refine ⟨?_, ?_, trivial⟩ <;>
+  norm_num [unnormG, exM, exB, ofList, ofList2, sumTo]
+
 end AITB.Belief
